@@ -74,7 +74,7 @@ def buildTreesTips (C : NewickCodec) (transl : Option (List (String × String)))
       | some t =>
         let okTaxa : Bool := match taxlabels with
           | none => true
-          | some labs => t.tipNames.all labs.contains && t.tipNames.length == labs.length
+          | some labs => t.tipNames.all labs.contains
         if !okTaxa then none else
         match buildTreesTips C transl taxlabels r with
         | none => none
